@@ -269,7 +269,10 @@ def _run(ctx, q, r, asan, tmpd):
     corpus = "".join(p + "\n" for p, _, _ in files[:600]) + "".join(p + "\n" for p in sp)
     jobs = [dict(cmd=[asan, "mutate", "--seed", str(ctx.seed * 977 + j), "--n", str(per), "--scratch", os.path.join(tmpd, "scratch%d" % j)],
                  variant="asan", tag="mutate %d" % j, stdin=corpus, san_ctx="ini-mutate", hang_is_violation=True, hang_key="robustness symptom=hang class=mutated") for j in range(nmut_jobs)]
-    mres = core.run_jobs(ctx, jobs, timeout=600 if q else 3600)
+    for j in jobs:
+        j.setdefault("hang_is_violation", True)
+        j.setdefault("hang_key", "robustness symptom=hang class=grammar")
+    mres = core.run_jobs(ctx, jobs, timeout=300 if q else 3600)
     mt = {}
     for job, rr in mres:
         for o in rr.json_lines():
